@@ -2,7 +2,7 @@
   C19 — Plücker lines: incidence, projection and rigid transformation are consistent.
   Theorems about the traced class methods of `Plucker` / `Plane`.  A line is the pair (v, w) stored as the
   6-vector L = (v, w) with v = w × p for every point p of the line.
-  Explored only (smv/props/c19.py): predicates with absolute tolerances (contains, ==, isparallel), distance of parallel lines, the normalised reciprocal product.
+  Explored only (smv/props/c19.py): predicates with absolute tolerances (contains, ==, isparallel), nearly parallel lines, the normalised reciprocal product.
 -/
 import SmVerif.Gen.Plucker
 import SmVerif.Spec.Lie
@@ -259,6 +259,64 @@ theorem distance_skew (L M : Vec 6 R) (p q : Vec 3 R) (hp : OnLine L p) (hq : On
     split_ifs at h with h1 h2 h3 <;> cases h
     · left; rfl
     · exact fin _ rfl
+
+/-- distance between two parallel lines (w₂ = k·w₁, k ≠ 0) through p and q: the code returns d ≥ 0 with
+    d²·‖w₁‖² = ‖w₁‖²‖p − q‖² − (w₁·(p − q))², i.e. d is the length of the component of p − q perpendicular to the common direction -/
+theorem distance_parallel (hS : P.Sqrt) (L M : Vec 6 R) (p q : Vec 3 R) (hp : OnLine L p) (hq : OnLine M q) (k : R) (hk : k ≠ 0)
+    (hpar : ∀ i, dir M i = k * dir L i) (hw : L 3 * L 3 + L 4 * L 4 + L 5 * L 5 ≠ 0) (d : R)
+    (h : Gen.Plucker_distance P L M = .ok d) :
+    0 ≤ d ∧ d * d * (L 3 * L 3 + L 4 * L 4 + L 5 * L 5) =
+      (L 3 * L 3 + L 4 * L 4 + L 5 * L 5) * ((p 0 - q 0) * (p 0 - q 0) + (p 1 - q 1) * (p 1 - q 1) + (p 2 - q 2) * (p 2 - q 2))
+        - (L 3 * (p 0 - q 0) + L 4 * (p 1 - q 1) + L 5 * (p 2 - q 2)) * (L 3 * (p 0 - q 0) + L 4 * (p 1 - q 1) + L 5 * (p 2 - q 2)) := by
+  have p0 := congrFun hp 0; have p1 := congrFun hp 1; have p2 := congrFun hp 2
+  have q0 := congrFun hq 0; have q1 := congrFun hq 1; have q2 := congrFun hq 2
+  have m3 := hpar 0; have m4 := hpar 1; have m5 := hpar 2
+  simp only [OnLine, cross3, mom, dir, v3_0, v3_1, v3_2] at p0 p1 p2 q0 q1 q2 m3 m4 m5
+  set W := L 3 * L 3 + L 4 * L 4 + L 5 * L 5 with hW
+  have hWpos : 0 < W := lt_of_le_of_ne (by have := mul_self_nonneg (L 3); have := mul_self_nonneg (L 4); have := mul_self_nonneg (L 5); linarith) (Ne.symm hw)
+  have s0 : P.sqrt 0 = 0 := by
+    have := hS.mul_self 0 (le_refl 0); exact mul_self_eq_zero.mp this
+  -- the cross product of the directions vanishes
+  have c0 : L 4 * M 5 - L 5 * M 4 = 0 := by rw [m4, m5]; ring
+  have c1 : L 5 * M 3 - L 3 * M 5 = 0 := by rw [m3, m5]; ring
+  have c2 : L 3 * M 4 - L 4 * M 3 = 0 := by rw [m3, m4]; ring
+  have hcross : P.sqrt ((L 4 * M 5 - L 5 * M 4) * (L 4 * M 5 - L 5 * M 4) + (L 5 * M 3 - L 3 * M 5) * (L 5 * M 3 - L 3 * M 5) + (L 3 * M 4 - L 4 * M 3) * (L 3 * M 4 - L 4 * M 3)) = 0 := by
+    rw [c0, c1, c2]; simpa using s0
+  have hMM : M 3 * M 3 + M 4 * M 4 + M 5 * M 5 = k * k * W := by rw [m3, m4, m5, hW]; ring
+  have hMMne : M 3 * M 3 + M 4 * M 4 + M 5 * M 5 ≠ 0 := by rw [hMM]; exact mul_ne_zero (mul_ne_zero hk hk) hw
+  have hLM : L 3 * M 3 + L 4 * M 4 + L 5 * M 5 = k * W := by rw [m3, m4, m5, hW]; ring
+  -- v₁ − v₂ (w₁·w₂)/(w₂·w₂) = w₁ × (p − q)
+  have u0 : L 0 - M 0 * (L 3 * M 3 + L 4 * M 4 + L 5 * M 5) / (M 3 * M 3 + M 4 * M 4 + M 5 * M 5) = L 4 * (p 2 - q 2) - L 5 * (p 1 - q 1) := by
+    rw [hLM, hMM, ← p0, ← q0, m4, m5]; field_simp; ring
+  have u1 : L 1 - M 1 * (L 3 * M 3 + L 4 * M 4 + L 5 * M 5) / (M 3 * M 3 + M 4 * M 4 + M 5 * M 5) = L 5 * (p 0 - q 0) - L 3 * (p 2 - q 2) := by
+    rw [hLM, hMM, ← p1, ← q1, m3, m5]; field_simp; ring
+  have u2 : L 2 - M 2 * (L 3 * M 3 + L 4 * M 4 + L 5 * M 5) / (M 3 * M 3 + M 4 * M 4 + M 5 * M 5) = L 3 * (p 1 - q 1) - L 4 * (p 0 - q 0) := by
+    rw [hLM, hMM, ← p2, ← q2, m3, m4]; field_simp; ring
+  have fin : ∀ d' : R, d' = P.sqrt ((L 4 * (L 2 - M 2 * (L 3 * M 3 + L 4 * M 4 + L 5 * M 5) / (M 3 * M 3 + M 4 * M 4 + M 5 * M 5)) - L 5 * (L 1 - M 1 * (L 3 * M 3 + L 4 * M 4 + L 5 * M 5) / (M 3 * M 3 + M 4 * M 4 + M 5 * M 5))) * (L 4 * (L 2 - M 2 * (L 3 * M 3 + L 4 * M 4 + L 5 * M 5) / (M 3 * M 3 + M 4 * M 4 + M 5 * M 5)) - L 5 * (L 1 - M 1 * (L 3 * M 3 + L 4 * M 4 + L 5 * M 5) / (M 3 * M 3 + M 4 * M 4 + M 5 * M 5)))
+        + (L 5 * (L 0 - M 0 * (L 3 * M 3 + L 4 * M 4 + L 5 * M 5) / (M 3 * M 3 + M 4 * M 4 + M 5 * M 5)) - L 3 * (L 2 - M 2 * (L 3 * M 3 + L 4 * M 4 + L 5 * M 5) / (M 3 * M 3 + M 4 * M 4 + M 5 * M 5))) * (L 5 * (L 0 - M 0 * (L 3 * M 3 + L 4 * M 4 + L 5 * M 5) / (M 3 * M 3 + M 4 * M 4 + M 5 * M 5)) - L 3 * (L 2 - M 2 * (L 3 * M 3 + L 4 * M 4 + L 5 * M 5) / (M 3 * M 3 + M 4 * M 4 + M 5 * M 5)))
+        + (L 3 * (L 1 - M 1 * (L 3 * M 3 + L 4 * M 4 + L 5 * M 5) / (M 3 * M 3 + M 4 * M 4 + M 5 * M 5)) - L 4 * (L 0 - M 0 * (L 3 * M 3 + L 4 * M 4 + L 5 * M 5) / (M 3 * M 3 + M 4 * M 4 + M 5 * M 5))) * (L 3 * (L 1 - M 1 * (L 3 * M 3 + L 4 * M 4 + L 5 * M 5) / (M 3 * M 3 + M 4 * M 4 + M 5 * M 5)) - L 4 * (L 0 - M 0 * (L 3 * M 3 + L 4 * M 4 + L 5 * M 5) / (M 3 * M 3 + M 4 * M 4 + M 5 * M 5)))) / W →
+      0 ≤ d' ∧ d' * d' * W = W * ((p 0 - q 0) * (p 0 - q 0) + (p 1 - q 1) * (p 1 - q 1) + (p 2 - q 2) * (p 2 - q 2))
+        - (L 3 * (p 0 - q 0) + L 4 * (p 1 - q 1) + L 5 * (p 2 - q 2)) * (L 3 * (p 0 - q 0) + L 4 * (p 1 - q 1) + L 5 * (p 2 - q 2)) := by
+    intro d' hd'
+    rw [u0, u1, u2] at hd'
+    generalize hA : (L 4 * (L 3 * (p 1 - q 1) - L 4 * (p 0 - q 0)) - L 5 * (L 5 * (p 0 - q 0) - L 3 * (p 2 - q 2))) * (L 4 * (L 3 * (p 1 - q 1) - L 4 * (p 0 - q 0)) - L 5 * (L 5 * (p 0 - q 0) - L 3 * (p 2 - q 2)))
+        + (L 5 * (L 4 * (p 2 - q 2) - L 5 * (p 1 - q 1)) - L 3 * (L 3 * (p 1 - q 1) - L 4 * (p 0 - q 0))) * (L 5 * (L 4 * (p 2 - q 2) - L 5 * (p 1 - q 1)) - L 3 * (L 3 * (p 1 - q 1) - L 4 * (p 0 - q 0)))
+        + (L 3 * (L 5 * (p 0 - q 0) - L 3 * (p 2 - q 2)) - L 4 * (L 4 * (p 2 - q 2) - L 5 * (p 1 - q 1))) * (L 3 * (L 5 * (p 0 - q 0) - L 3 * (p 2 - q 2)) - L 4 * (L 4 * (p 2 - q 2) - L 5 * (p 1 - q 1))) = A at hd'
+    have hA0 : 0 ≤ A := by rw [← hA]; exact add_nonneg (add_nonneg (mul_self_nonneg _) (mul_self_nonneg _)) (mul_self_nonneg _)
+    have hsq := hS.mul_self A hA0
+    have hval : A = W * (W * ((p 0 - q 0) * (p 0 - q 0) + (p 1 - q 1) * (p 1 - q 1) + (p 2 - q 2) * (p 2 - q 2))
+        - (L 3 * (p 0 - q 0) + L 4 * (p 1 - q 1) + L 5 * (p 2 - q 2)) * (L 3 * (p 0 - q 0) + L 4 * (p 1 - q 1) + L 5 * (p 2 - q 2))) := by
+      rw [← hA, hW]; ring
+    constructor
+    · rw [hd']; exact div_nonneg (hS.nonneg A) (le_of_lt hWpos)
+    · rw [hd']; field_simp; linear_combination hsq + hval
+  unfold Gen.Plucker_distance at h; simp only [] at h
+  rw [hcross] at h
+  by_cases hbig : P.sqrt (L 3 * L 3 + L 4 * L 4 + L 5 * L 5) * P.sqrt (M 3 * M 3 + M 4 * M 4 + M 5 * M 5) > 1
+  · rw [if_pos hbig, if_pos (by positivity)] at h
+    cases h; exact fin _ rfl
+  · rw [if_neg hbig, if_pos (by norm_num)] at h
+    cases h; exact fin _ rfl
 
 /-- transforming a line by a rigid motion gives the line through the transformed points, with rotated direction -/
 theorem SE3_mul_line (M : Mat 3 3 R) (t : Vec 3 R) (hM : IsSO3 M) (L L' : Vec 6 R)
